@@ -89,13 +89,16 @@ impl EliasFano {
         }
 
         let n = values.len();
-        let universe = values[n - 1] + 1; // Exclusive upper bound
+        // Exclusive upper bound (u64::MAX itself cannot have one: saturate, `contains` does not
+        // rely on it)
+        let universe = values[n - 1].saturating_add(1);
 
-        // Compute optimal split: lower_bits = max(0, floor(log2(u/n)))
+        // Compute optimal split: lower_bits = max(0, floor(log2(u/n))). At most 63, so that the
+        // high part `value >> lower_bits` is always a valid shift, also for values >= 2^63.
         let lower_bits = if universe <= n as u64 {
             0
         } else {
-            (64 - (universe / n as u64).leading_zeros()) as usize
+            ((64 - (universe / n as u64).leading_zeros()) as usize).min(63)
         };
 
         let lower_mask = if lower_bits == 0 {
@@ -210,7 +213,7 @@ impl EliasFano {
     /// O(log n) using binary search.
     #[must_use]
     pub fn contains(&self, value: u64) -> bool {
-        if self.is_empty() || value >= self.universe {
+        if self.is_empty() || value > self.get(self.n - 1) {
             return false;
         }
 
